@@ -534,3 +534,9 @@ def r17_11(ctx):
         ctx.check(ok and own, "grid_gist (line-role %s) reports coefficients at the Greville points of the member's own degree" % ("signals" if is_signal_branch else "chains"),
                   detail="coefficients of a lower chain member paired with the Greville points of the head's degree (one time too many; wrong abscissae)",
                   expected="G = get_greville_points(self.xi, origin['d'] - origin['i'])", found="Greville degree: %s" % src, fi=f, node=r, sample={"degree": src})
+
+
+@rule("R17.12", min_instances=5, desc="SplineMethod imposes a path constraint at the grid points it was declared for: the lump's include_first / include_last reach grid_control un-swapped and the columns are cut once (shared with C04 / C07)")
+def r17_12(ctx):
+    from .c04 import r04_18
+    r04_18(ctx)
